@@ -289,6 +289,19 @@ def _positioned(ctx, prog):
                 base, ad = util.iter_chain(recv)
                 base = strip(base)
                 chain_ok = ad == ['iter', 'enumerate'] and isinstance(base, tuple) and base[0] == 'fld' and base[2] == 'joint_meshes'
+                # ... or mesh k zipped with pose k: joint_meshes.iter().zip(<the link poses>)
+                z = strip(recv)
+                while isinstance(z, tuple) and z[0] == 'call' and cname(z[1]).split('::')[-1] == 'into_iter':
+                    z = strip(z[2])
+                if not (ok and chain_ok) and isinstance(z, tuple) and z[0] == 'call' and cname(z[1]) == 'Iterator::zip' and len(z) == 4:
+                    lb, lad = util.iter_chain(z[2])
+                    rb2, rad = util.iter_chain(z[3])
+                    lb = strip(lb)
+                    zipped = isinstance(jb, tuple) and jb[0] == 'fld' and util.is_param(jb[1], 2) and jb[2] == '0' and \
+                        isinstance(tr, tuple) and tr[0] == 'fld' and util.is_param(tr[1], 2) and tr[2] == '1'
+                    if zipped and lad == ['iter'] and isinstance(lb, tuple) and lb[0] == 'fld' and lb[2] == 'joint_meshes' and \
+                            all(a in ('into_iter', 'iter', 'copied', 'cloned', 'map') for a in rad) and mir.contains(z[3], lambda x: x == fk):
+                        ok = chain_ok = True
     ctx.check(ok and chain_ok, 'R11.4', 'positioned_robot/links', b.where(0), b.path,
               'link meshes are not paired with the link pose of the same index (pair ok=%s, iteration over joint_meshes.iter().enumerate()=%s)' % (ok, chain_ok), found=detail, detail=detail)
     # tool transform = global_transforms[J6]
